@@ -21,8 +21,10 @@ int main() {
     std::string out;
     if (a.size() < 2) out = "HARNESS-ERROR short";
     else {
-      auto it = reg.core.find(a[1].a);
-      if (it == reg.core.end()) out = "HARNESS-ERROR unknown type " + a[1].a;
+      bool lib = (a[0].a == "encw" || a[0].a == "decr");
+      auto& tab = lib ? reg.lib : reg.core;
+      auto it = tab.find(a[1].a);
+      if (it == tab.end()) out = lib ? "unsupported" : "HARNESS-ERROR unknown type " + a[1].a;
       else out = it->second(a);
     }
     std::cout << out << "\n" << std::flush;
@@ -55,8 +57,12 @@ def build(pool=None, tag='core', shards=16, force=False):
         p = os.path.join(out, 'shard%d.cpp' % k)
         with open(p, 'w') as f:
             f.write('#include "pool_types.h"\nvoid RegisterShard%d(vh::Registry& r) {\n' % k)
-            for n, _, _, _ in g:
+            for n, _, _, c in g:
                 f.write('  r.core["%s"] = &vh::CoreOps<%s>;\n' % (n, n))
+                if 'handle' not in c:
+                    cx = 'false' if c & {'float', 'wide', 'boolarr'} else 'true'
+                    fd = 'false' if 'table' in c else 'true'
+                    f.write('  r.lib["%s"] = &vh::LibOps<%s, %s, %s>;\n' % (n, n, cx, fd))
             f.write('}\n')
         files.append(p)
     with open(os.path.join(out, 'main.cpp'), 'w') as f:
